@@ -7,25 +7,27 @@
   ------------------------------------------------------------------------------  ---------------------------------
   LoadParser.__init__: doc, data = [], level = 0, parse = False                    `St.fresh` (`level` is never read)
         (`parent` / `curr` do not exist yet)                                       `Root.unset`
-  characters(data): if parse: self.data.append(data)                               `stepChars` (`data` is kept as the
+  characters(data): if parse and not skip: self.data.append(data)                  `stepChars` (`data` is kept as the
                                                                                     concatenation `''.join(self.data)`)
   startElementNS(tag, qname, attrs):                                               `stepStart`
-     if tag in triggers: parse = True                                                 `isTrigger`
-     if basename(doc._parsing) != "styles.xml" and tag == office:font-face-decls: …   `stylesPart` (`stylesPartOf`)
+     depth += 1; section = depth == 2 and tag in triggers      (repair @@HASH-A@@)    `isSection`: only the children of
+     if section: parse = True                                                         the root element are sections
      if not parse: return
+     if skip or (style:font-face under doc.fontfacedecls whose style:name is          `fontDeclared`: office:font-face-decls
+         declared already): skip += 1; return                  (repair @@HASH-B@@)    is read from content.xml AND styles.xml
      content = ''.join(data); if content: parent.addText(content); data = []           `addToParent` (`addText` skips '')
      e = Element(qname=tag, qattributes=attrs, check_grammar=False); curr = e          frame ⟨q, attrs, []⟩
      if tag is one of the eight section elements: e = the document's section object    `secOfTrigger`: the element just
          (office:font-face-decls only while parsing styles.xml)                        built is dropped (`currDet`), the
          for att, value in attrdict.items(): e.setAttrNS(..)   (fix 2a48e47)           section object gets its attributes
                                                                                        (`Doc.putAttrs`)
-     elif hasattr(self,'parent'): parent.addElement(e)                                 push frame; `attachHook`
+     if not section: parent.addElement(e)                                              push frame; `attachHook`
      parent = e
   endElementNS(tag, qname):                                                        `stepStop`
-     if not parse: return
+     depth -= 1; if not parse: return; if skip: skip -= 1; return
      s = ''.join(data); if s: curr.addText(s); data = []                               `addToCurr`
      curr = curr.parentNode; parent = curr                                             pop frame / climb `Root`
-     if tag in triggers: parse = False
+     if depth == 1 and tag in triggers: parse = False
   Node.appendChild → _child_attached → doc.rebuild_caches(e) → build_caches(e):    `attachHook`
      style:style with style:name under office:styles / office:automatic-styles is
      registered by name; a name already registered (during a load `__registered_style(name)` is
@@ -88,6 +90,8 @@ def qStyle : QName := ⟨STYLENS, lStyle⟩
 def aStyleName : QName := ⟨STYLENS, lName⟩
 /-- the attribute `text:style-name` -/
 def aTextStyleName : QName := ⟨TEXTNS, lStyleName⟩
+/-- `style:font-face` -/
+def qFontFaceEl : QName := ⟨STYLENS, [102, 111, 110, 116, 45, 102, 97, 99, 101]⟩
 
 /-! ### events, sections, the document -/
 
@@ -182,6 +186,8 @@ structure St where
   data : Str := []                   -- `''.join(self.data)`
   root : Root := .unset
   spine : List Frame := []           -- open elements, innermost first
+  depth : Int := 0                   -- `self.depth`: nesting depth of the current element, the root element is 1
+  skip : Nat := 0                    -- `self.skip`: depth inside a font declaration that is skipped
   currDet : Bool := false            -- `curr` is the discarded element built for a section start tag
                                      -- (then `parent` is the section, spine = [])
 
@@ -288,39 +294,57 @@ def attachHook (names : List Str) (fix : List (Str × Str)) (pq : Option QName) 
 /-! ### the three handlers -/
 
 def stepChars (st : St) (s : Str) : St :=
-  if st.parsing then { st with data := st.data ++ s } else st
+  if st.parsing && st.skip == 0 then { st with data := st.data ++ s } else st
+
+/-- `[f.getAttrNS(STYLENS, 'name') for f in self.parent.childNodes if f.nodeType == 1]` -/
+def declaredNames : Forest → List (Option Str)
+  | .nil => []
+  | .cons (.elem _ a _) t => lookupA aStyleName a :: declaredNames t
+  | .cons _ t => declaredNames t
+
+/-- (repair @@HASH-B@@) `tag == style:font-face and self.parent is self.doc.fontfacedecls and
+    attrs.get(style:name) in [names already declared]`: a font declaration that repeats a declared name -/
+def fontDeclared (st : St) (q : QName) (attrs : List (QName × Str)) : Bool :=
+  decide (q = qFontFaceEl) && st.spine.isEmpty && decide (st.root = .sec .fontFace) &&
+  (declaredNames st.doc.fontFace).contains (lookupA aStyleName attrs)
 
 def stepStart (st : St) (q : QName) (attrs : List (QName × Str)) : Option St :=
-  let p1 := if isTrigger q then true else st.parsing
-  let p2 := if !st.stylesPart && q = qFontFace then false else p1
-  if !p2 then some { st with parsing := false }
+  let d := st.depth + 1
+  -- (repair @@HASH-A@@) the sections are the children of the root element
+  let isSection := decide (d = 2) && isTrigger q
+  let p1 := if isSection then true else st.parsing
+  if !p1 then some { st with depth := d }
+  else if st.skip != 0 || fontDeclared st q attrs then some { st with depth := d, parsing := true, skip := st.skip + 1 }
   else
     let flushed : Option St :=
-      if st.data.isEmpty then some { st with parsing := true }
-      else (addToParent st (.cons (.text st.data) .nil)).map (fun s => { s with data := [], parsing := true })
+      if st.data.isEmpty then some { st with depth := d, parsing := true }
+      else (addToParent st (.cons (.text st.data) .nil)).map (fun s => { s with depth := d, data := [], parsing := true })
     match flushed with
     | none => none
     | some st1 =>
-      match secOfTrigger q with
+      match (if isSection then secOfTrigger q else none) with
       | some s =>
         -- the element that was built is dropped (`curr` still points to it); `parent` becomes the section
         -- object, which receives the attributes of the file (fix 2a48e47)
         let st2 := settle st1
         some { st2 with doc := st2.doc.putAttrs s attrs, root := .sec s, spine := [], currDet := true }
       | none =>
+        -- `self.parent.addElement(e)`: AttributeError if `parent` does not exist or is None
         match st1.spine, st1.root with
-        | [], .unset => some { st1 with root := .det, currDet := false }    -- not attached: it IS the lost element
-        | [], .none => none                                                  -- None.addElement
+        | [], .unset => none
+        | [], .none => none
         | _, _ =>
           let h := attachHook st1.names st1.fix (parentQ st1) q attrs
           some { st1 with names := h.1, fix := h.2.1, spine := ⟨q, h.2.2, .nil⟩ :: st1.spine, currDet := false }
 
 def stepStop (st : St) (q : QName) : Option St :=
-  if !st.parsing then some st
+  let d := st.depth - 1
+  if !st.parsing then some { st with depth := d }
+  else if st.skip != 0 then some { st with depth := d, skip := st.skip - 1 }
   else
     let flushed : Option St :=
-      if st.data.isEmpty then some st
-      else (addToCurr st (.cons (.text st.data) .nil)).map (fun s => { s with data := [] })
+      if st.data.isEmpty then some { st with depth := d }
+      else (addToCurr st (.cons (.text st.data) .nil)).map (fun s => { s with depth := d, data := [] })
     match flushed with
     | none => none
     | some st1 =>
@@ -337,7 +361,7 @@ def stepStop (st : St) (q : QName) : Option St :=
             | .det => some { st1 with root := .none }
             | .none => none
             | .unset => none
-      climbed.map (fun s => if isTrigger q then { s with parsing := false } else s)
+      climbed.map (fun s => if decide (d = 1) && isTrigger q then { s with parsing := false } else s)
 
 def step (st : St) : Event → Option St
   | .start q a => stepStart st q a
